@@ -41,6 +41,8 @@ fn assemble(own: Vec<EwSpec>, custom: Vec<Scenario>, quick: bool, me: &str, mask
     for (fam, f) in [("C07", c07_specs as fn(bool) -> Vec<EwSpec>), ("C08", c08_specs), ("C09", c09_specs), ("C10", c10_specs), ("C17", c17_specs)] {
         if fam == me { continue; }
         for mut sp in f(quick) {
+            // scenarios in which the applications read their events one step late are for the monitors that do not look at the clock
+            if sp.env.late_events && ["C09", "C10", "C17"].contains(&me) { continue; }
             // the timer grid of C10 is large and only interesting to the timer oracle; the others take a cross-section of it
             if fam == "C10" && !(sp.tag.contains("handshake") || sp.tag.contains("blackout")) { continue; }
             sp.oracles = mask; sp.tag = format!("{}.pool.{}", me, sp.tag);
